@@ -8,11 +8,14 @@ as configuration facts.  Core Lean only; executable.  Segment ids are ordinals i
 -/
 namespace NoKV.Raftwal.Seg
 
-/-- a raft record: group, entry range `lo..hi` (`lo = 0`: a hard-state record) -/
+/-- a raft record: group, entry range `lo..hi` (`lo = 0`: a hard-state record).  `lhi` is a ghost:
+the last index of the record that is still live, i.e. not rewritten by a later append of the
+group (a later append starting at `i` supersedes everything from `i` on); `lhi < lo`: nothing. -/
 structure RRec where
   g : Nat
   lo : Nat
   hi : Nat
+  lhi : Nat
   deriving DecidableEq, Repr, Inhabited
 
 structure Segm where
@@ -157,23 +160,47 @@ def spanSeg (spans : List (Nat × Nat × Nat)) (k : Nat) : Option Nat :=
 def pruneSpans (spans : List (Nat × Nat × Nat)) (k : Nat) : List (Nat × Nat × Nat) :=
   (spans.filter (fun sp => decide (k < sp.2.1))).map (fun sp => if sp.1 ≤ k then (k + 1, sp.2.1, sp.2.2) else sp)
 
-def rapp (s : S) (gid n : Nat) : S × String :=
+/-- `recordEntrySpan`: the spans wholly below the new batch are kept, the first span reaching into
+it keeps its non-overwritten prefix, everything behind is superseded by the batch -/
+def addSpan (spans : List (Nat × Nat × Nat)) (f l sg : Nat) : List (Nat × Nat × Nat) :=
+  spans.takeWhile (fun sp => decide (sp.2.1 < f)) ++
+    (match spans.dropWhile (fun sp => decide (sp.2.1 < f)) with
+     | [] => []
+     | sp :: _ => if sp.1 < f then [(sp.1, f - 1, sp.2.2)] else []) ++ [(f, l, sg)]
+
+/-- ghost: entries of group `gid` from `start` on are superseded -/
+def cutR (gid start : Nat) (r : RRec) : RRec :=
+  if r.g == gid && r.lo != 0 then { r with lhi := min r.lhi (start - 1) } else r
+
+def cutF (gid start : Nat) (sg : Segm) : Segm := { sg with raft := sg.raft.map (cutR gid start) }
+
+/-- `WALStorage.Append` of `n` entries starting at `start` (at most `last + 1`: a new leader may
+rewrite the uncommitted tail of the log): one record in the active segment -/
+def rover (s : S) (gid start n : Nat) : S × String :=
   match s.grps.find? (·.id == gid) with
   | none => (s, "nogroup")
   | some g =>
     if !g.openOK then (s, "nogroup") else
     if n = 0 then (s, "ok") else
-    let r : RRec := ⟨gid, g.last + 1, g.last + n⟩
-    ({ s with segs := modSeg s.segs s.active (fun sg => { sg with raft := sg.raft ++ [r] }),
+    if start ≤ g.base ∨ g.last + 1 < start then (s, "skip") else
+    ({ s with segs := modSeg (s.segs.map (cutF gid start)) s.active
+                (fun sg => { sg with raft := sg.raft ++ [⟨gid, start, start + n - 1, start + n - 1⟩] }),
               grps := modGrp s.grps gid (fun g =>
-                { g with last := g.last + n, ptrSeg := s.active, spans := g.spans ++ [(r.lo, r.hi, s.active)] }) }, "ok")
+                { g with last := start + n - 1, ptrSeg := s.active,
+                         spans := addSpan g.spans start (start + n - 1) s.active }) }, "ok")
+
+/-- append at the end of the log -/
+def rapp (s : S) (gid n : Nat) : S × String :=
+  match s.grps.find? (·.id == gid) with
+  | none => (s, "nogroup")
+  | some g => rover s gid (g.last + 1) n
 
 def rhs (s : S) (gid : Nat) : S × String :=
   match s.grps.find? (·.id == gid) with
   | none => (s, "nogroup")
   | some g =>
     if !g.openOK then (s, "nogroup") else
-    ({ s with segs := modSeg s.segs s.active (fun sg => { sg with raft := sg.raft ++ [⟨gid, 0, 0⟩] }),
+    ({ s with segs := modSeg s.segs s.active (fun sg => { sg with raft := sg.raft ++ [⟨gid, 0, 0, 0⟩] }),
               grps := modGrp s.grps gid (fun g => { g with ptrSeg := s.active }) }, "ok")
 
 /-- `MaybeCompact(k+1, 1)` → `compactTo(k)` -/
@@ -202,6 +229,10 @@ def replayRecs (recs : List RRec) (start : Nat) (seed : Nat) : Option Nat :=
       else if r.lo > cur + 1 then none
       else some r.hi) (some start)
 
+/-- entry spans rebuilt during replay: `recordEntrySpan` for every surviving record in order -/
+def foldSpans (recs : List (Nat × Nat × Nat)) : List (Nat × Nat × Nat) :=
+  recs.foldl (fun acc t => addSpan acc t.1 t.2.1 t.2.2) []
+
 def recoverGrp (c : SCfg) (segs : List Segm) (g : Grp) : Grp :=
   if !g.openOK then g else
   let recs := (segs.flatMap (·.raft)).filter (·.g == g.id)
@@ -212,8 +243,8 @@ def recoverGrp (c : SCfg) (segs : List Segm) (g : Grp) : Grp :=
   | some l =>
     if !ptrOK then { g with openOK := false } else
     { g with last := l, base := seed,
-             spans := pruneSpans (segs.flatMap (fun sg => (sg.raft.filter (fun r => r.g == g.id && r.lo != 0)).map
-                        (fun r => (r.lo, r.hi, sg.id)))) g.trunc }
+             spans := pruneSpans (foldSpans (segs.flatMap (fun sg => (sg.raft.filter (fun r => r.g == g.id && r.lo != 0)).map
+                        (fun r => (r.lo, r.hi, sg.id))))) g.trunc }
 
 /-- the recovery cleanup's decision for one segment (`lsm/memtable.go:recovery`) -/
 def recoveryDrops (c : SCfg) (s : S) (sg : Segm) : Bool :=
@@ -259,9 +290,9 @@ def segIds (s : S) : List Nat := (s.segs.filter (·.present)).map (·.id)
 /-- a segment holds a put that no installed table contains -/
 def holdsUnflushed (s : S) (sg : Segm) : Bool := sg.puts.any (fun p => !s.tables.contains p)
 
-/-- a segment holds raft entries above their group's truncation point -/
+/-- a segment holds live raft entries above their group's truncation point -/
 def holdsUntruncated (s : S) (sg : Segm) : Bool :=
-  sg.raft.any (fun r => r.lo != 0 && s.grps.any (fun g => g.id == r.g && decide (g.trunc < r.hi)))
+  sg.raft.any (fun r => r.lo != 0 && s.grps.any (fun g => g.id == r.g && decide (g.trunc < r.lhi)))
 
 def needed (s : S) (sg : Segm) : Bool := holdsUnflushed s sg || holdsUntruncated s sg
 
@@ -269,13 +300,14 @@ def needed (s : S) (sg : Segm) : Bool := holdsUnflushed s sg || holdsUntruncated
 def neededKept (s : S) : Bool := s.segs.all (fun sg => !needed s sg || sg.present)
 
 inductive Op
-  | put (k : Nat) | rapp (g n : Nat) | rhs (g : Nat) | rtrunc (g k : Nat)
+  | put (k : Nat) | rapp (g n : Nat) | rover (g start n : Nat) | rhs (g : Nat) | rtrunc (g k : Nat)
   | rotate | gate (closed : Bool) | watchdog | crash | flushFail
   deriving DecidableEq, Repr
 
 def step (c : SCfg) (s : S) : Op → S
   | .put k => put s k
   | .rapp g n => (rapp s g n).1
+  | .rover g st n => (rover s g st n).1
   | .rhs g => (rhs s g).1
   | .rtrunc g k => (rtrunc s g k).1
   | .rotate => rotate c s
